@@ -58,6 +58,33 @@ int main(int argc, char **argv)
             std::cout << " | used " << used << std::endl;
             return;
         }
+        if (line.rfind("CC ", 0) == 0)
+        {   // CC <maxSteps> <maxEmpty> <x0> <x1> ... | a-b ...: collapseCloseVertices on the path of R^1 states with the given distinct integer
+            // coordinates (vertex k at x_k) and a table-driven motion validator over vertex numbers
+            std::istringstream pin(line); std::string c0, tok; unsigned ms, me; pin >> c0 >> ms >> me; std::vector<long> xs;
+            while (pin >> tok && tok != "|") xs.push_back(std::stol(tok));
+            std::map<long, long> idx; for (std::size_t k = 0; k < xs.size(); ++k) idx[xs[k]] = (long)k;
+            std::set<std::pair<long, long>> okp; while (pin >> tok) { auto k = tok.find('-'); okp.insert({std::stol(tok.substr(0, k)), std::stol(tok.substr(k + 1))}); }
+            auto sp = std::make_shared<ob::RealVectorStateSpace>(1); sp->setBounds(-1e6, 1e6);
+            auto si = std::make_shared<ob::SpaceInformation>(sp);
+            si->setStateValidityChecker([](const ob::State *) { return true; });
+            struct TableMV2 : public ob::MotionValidator
+            {
+                TableMV2(const ob::SpaceInformationPtr &si, std::set<std::pair<long, long>> t, std::map<long, long> ix) : ob::MotionValidator(si), tab(std::move(t)), idx(std::move(ix)) {}
+                std::set<std::pair<long, long>> tab; std::map<long, long> idx;
+                bool checkMotion(const ob::State *a, const ob::State *b) const override
+                { return tab.count({idx.at(std::lround(a->as<ob::RealVectorStateSpace::StateType>()->values[0])), idx.at(std::lround(b->as<ob::RealVectorStateSpace::StateType>()->values[0]))}) > 0; }
+                bool checkMotion(const ob::State *a, const ob::State *b, std::pair<ob::State *, double> &lv) const override { lv.second = 0; return checkMotion(a, b); }
+            };
+            si->setMotionValidator(std::make_shared<TableMV2>(si, okp, idx)); si->setup();
+            og::PathGeometric path(si);
+            for (long x : xs) { ob::State *s = sp->allocState(); s->as<ob::RealVectorStateSpace::StateType>()->values[0] = (double)x; path.append(s); sp->freeState(s); }
+            og::PathSimplifier ps(si);
+            bool ret = ps.collapseCloseVertices(path, ms, me);
+            std::cout << "cc " << (ret ? 1 : 0) << " |"; for (std::size_t i = 0; i < path.getStateCount(); ++i) std::cout << " " << idx.at(std::lround(path.getState(i)->as<ob::RealVectorStateSpace::StateType>()->values[0]));
+            std::cout << std::endl;
+            return;
+        }
         std::istringstream in(line); std::string cmd, spn, envn, mode, routine; unsigned seed; double res;
         if (!(in >> cmd >> spn >> envn >> seed >> res >> mode >> routine) || cmd != "SIMP") return;
         std::vector<double> par; double v; while (in >> v) par.push_back(v);
